@@ -122,7 +122,7 @@ def join_all(vals):
     return out if out is not None else FRESH
 
 
-def _map(v, table):
+def _map(v, table, keep_fn=False):
     out = set()
     for a in v.all_atoms():
         if a == F:
@@ -130,7 +130,7 @@ def _map(v, table):
         else:
             for k in table[a[0]]:
                 out.add((k, a[1]) if k != F else F)
-    return Val(out or {F})
+    return Val(out or {F}, None, tuple(f for f in v.fn if f[0] != "tag") if keep_fn else None)
 
 
 def viewify(v):
@@ -142,14 +142,17 @@ def subify(v):
     """generic sub-object (``x[i]``, iteration element)"""
     if v.items is not None:
         return join_all(v.items)
-    return _map(v, {"A": "W", "V": "W", "W": "W", "E": "WE", "U": "U", "X": "UX"})
+    return _map(v, {"A": "W", "V": "W", "W": "W", "E": "WE", "U": "U", "X": "UX"}, keep_fn=True)
 
 
 def elemify(v):
     """fresh container holding the value"""
     if v.items is not None:
-        return Val(v.all_atoms())
-    return _map(v, {"A": "E", "V": "E", "W": "E", "E": "E", "U": "X", "X": "X"})
+        fns = ()
+        for it in v.items:
+            fns = _fns(Val([F], None, fns), it)
+        return Val(v.all_atoms(), None, tuple(f for f in fns if f[0] != "tag"))
+    return _map(v, {"A": "E", "V": "E", "W": "E", "E": "E", "U": "X", "X": "X"}, keep_fn=True)
 
 
 def unknownify(v):
@@ -251,8 +254,29 @@ class AliasEngine:
         self.max_depth = max_depth
         self._memo = {}
         self._init_tags = {}
+        self._attr_callables = {}
         self._active = set()
         self.stats = {"functions": 0, "calls": 0}
+
+    def attr_callables(self, cls, attr):
+        """repo functions that some method of ``cls`` stores in self.<attr> (``self.attr = some_function``)"""
+        key = (cls.qual, attr)
+        if key not in self._attr_callables:
+            out = []
+            for k in self.repo.mro(cls):
+                if not hasattr(k, "methods"):
+                    continue
+                for mn, fn in k.methods.items():
+                    names = astq.param_names(fn)
+                    if not names:
+                        continue
+                    for a, v, st_ in astq.self_attr_stores(fn, names[0]):
+                        if a == attr and v is not None and dotted(v):
+                            sym = self.repo.resolve_expr(k.module, v)
+                            if sym is not None and sym.kind == "func" and not any(_fkey(("sym", sym)) == _fkey(x) for x in out):
+                                out.append(("sym", sym))
+            self._attr_callables[key] = out
+        return self._attr_callables[key]
 
     def init_tags(self, cls):
         """tags (e.g. 'constructed with copy=False') of the attributes the constructor of ``cls`` leaves on self"""
@@ -649,7 +673,8 @@ class _FnAnalysis:
         base = self.ev(e.value, st)
         self.ev(e.slice, st)
         if not has_rel(base):
-            return FRESH
+            held = tuple(f_ for f_ in base.fn if f_[0] != "tag")
+            return Val([F], None, held) if held else FRESH
         if base.items is not None:
             idx = e.slice
             if isinstance(idx, ast.Constant) and isinstance(idx.value, int) and -len(base.items) <= idx.value < len(base.items):
@@ -819,6 +844,15 @@ class _FnAnalysis:
         t = self.eng.flow.resolve_call(call, self.module, self.cls, self.defcls, self.selfname or "self")
         if t.kind in ("method", "func") and t.func is not None:
             return self.call_repo(t, call, st)
+        if t.kind == "attr" and isinstance(f, ast.Attribute) and self.is_self(f.value) and self.cls is not None:
+            # a callable kept in an attribute of self: the functions the class may store there (state first, else any store in the class)
+            cur = st.get("self." + f.attr)
+            ents = [e_ for e_ in (cur.fn if cur is not None else ()) if e_[0] != "tag"] or self.eng.attr_callables(self.cls, f.attr)
+            if ents:
+                outs = []
+                for ent in ents:
+                    outs.append(self.call_closure((ent[1], ent[2]), call, st) if ent[0] == "clo" else self.call_sym(ent[1], call, st))
+                return join_all(outs)
         if t.kind == "class":
             self.eval_args(call, st)
             return FRESH
